@@ -127,8 +127,15 @@ fn markdown_comments_parser() -> anyhow::Result<impl CommentsParser> {
             result.push_str(&comment[..prefix_idx]);
             // Replace "[//]:" with spaces.
             result.push_str("     ");
-            // Replace everything before the open delimiter with spaces (including the delimiter).
-            result.push_str(" ".repeat(open_idx - (prefix_idx + 5) + 1).as_str());
+            // Replace everything before the open delimiter with spaces (including the delimiter),
+            // keeping line breaks: the title may start on the line after the destination.
+            for c in comment[prefix_idx + 5..open_idx + 1].chars() {
+                if c == '\n' || c == '\r' {
+                    result.push(c);
+                } else {
+                    result.push_str(" ".repeat(c.len_utf8()).as_str());
+                }
+            }
             // Copy the comment's content.
             result.push_str(&comment[open_idx + 1..close_idx]);
             // Replace the close delimiter with a space.
